@@ -529,7 +529,7 @@ static void inflate_prefill_part(void)
 static void prefill_part(void)
 {
 	static const int lens[] = { 0, 1, 9, 300, 600, 4096, 8193, 20000 };
-	static const int pats[] = { PAT_TEXT, PAT_XS, PAT_ZERO, PAT_P3 };
+	static const int pats[] = { PAT_TEXT, PAT_XS, PAT_ZERO, PAT_P3, PAT_LOG };
 	static const int cpus[] = { CPU_BASE, CPU_AVX2, CPU_AVX512G2 };
 	static uint8_t *in, *out[5], *lbprev, *ctxprev;
 	static struct isal_zstream *s;
@@ -543,7 +543,7 @@ static void prefill_part(void)
 	char key[300];
 	uint64_t unit = 0;
 	for (unsigned li = 0; li < 8; li++)
-		for (int pi = 0; pi < 4; pi++)
+		for (int pi = 0; pi < 5; pi++)
 			for (int level = 0; level <= 3; level++)
 				for (int gz = 0; gz < 2; gz++)
 					for (int api = 0; api < 3; api++)
